@@ -107,7 +107,7 @@ static std::string read_all_modes(std::string file, int mode) {
   // mode bit 0: with_data; bits 1-2: 0 memory, 1 file, 2 gzip file, 3 gzip file followed by a corrupt second member
   bool with_data = mode & 1;
   int via = (mode >> 1) & 3;
-  alarm(10);
+  hv::cpu_alarm(10);
   std::string r;
   try {
     Mtz mtz;
@@ -154,7 +154,7 @@ static std::string read_all_modes(std::string file, int mode) {
   } catch (std::exception&) {
     r = "EXC";
   }
-  alarm(0);
+  hv::cpu_alarm(0);
   return r;
 }
 
@@ -239,7 +239,7 @@ static std::string handle(const std::string& cmd, const std::string& args) {
 }
 
 int main() {
-  signal(SIGALRM, on_alarm);
+  hv::install_alarm_handler(on_alarm);
   if (!kAsan) {   // address-space limit so that absurd allocations throw std::bad_alloc
     struct rlimit rl; rl.rlim_cur = rl.rlim_max = 2ull << 30; setrlimit(RLIMIT_AS, &rl);
   }
